@@ -39,6 +39,13 @@ def gen_progs(chk):
             if cls in (2, 3) and d > 9:
                 d = 10
             progs.append((B.insn(o, d, s, off, imm) + B.EXIT, 'opcode'))
+    # the second slot of a wide load only has to carry opcode 0: its other fields (register byte, offset) are free and must not
+    # matter to either compiler
+    for rb2 in (0x0b, 0xb0, 0xff, 0x1a, 0xa1, 0x0a):
+        for off2 in (0, -1, 0x7fff):
+            for d in (0, 9):
+                progs.append((B.insn(0x18, d, 0, 0, 5) + B.insn(0, rb2 & 15, rb2 >> 4, off2, 7) + B.EXIT, 'lddw-second-slot'))
+                progs.append((B.mov(0, 1) + B.jmp('jeq', 0, 2, imm=1) + B.insn(0x18, d, 0, 0, -1) + B.insn(0, rb2 & 15, rb2 >> 4, off2, -1) + B.EXIT, 'lddw-second-slot'))
     # code density: runs of one instruction form (the size of the emitted code per eBPF instruction varies from 1 to ~45 bytes;
     # any size estimate must hold for the worst form), at lengths around powers of two
     for o in C05.SUPPORTED:
